@@ -205,11 +205,6 @@ impl<'a, 'b> B<'a, 'b> {
         c
     }
 
-    fn cond_else(&mut self) {
-        let e = *self.t.pick(&["{$ELSE}", "{$else}", "{$ELSEIF Defined(Q)}", "(*$ELSE*)"]);
-        self.directive(e);
-    }
-
     fn compiler_directive(&mut self) {
         self.tag("compiler-directive");
         let d = *self.t.pick(&[
@@ -545,12 +540,31 @@ impl<'a, 'b> B<'a, 'b> {
                     self.stmt(false);
                     self.mark(first, opener, 0);
                     self.op(";");
-                    if self.t.chance(1, 2) {
-                        self.cond_else();
-                        let first = self.p.toks.len() as u32;
-                        self.stmt(false);
-                        self.mark(first, opener, 0);
-                        self.op(";");
+                    // further branches: {$ELSEIF ..} / {$ELSE}, each holding a statement, only a
+                    // compiler directive, or nothing at all
+                    let extra = *self.t.pick(&[0, 1, 0, 1, 2, 3]);
+                    for b in 0..extra {
+                        if b + 1 == extra && self.t.chance(2, 3) {
+                            let e = *self.t.pick(&["{$ELSE}", "{$else}", "(*$ELSE*)"]);
+                            self.directive(e);
+                        } else {
+                            let e = *self.t.pick(&["{$ELSEIF Defined(Q)}", "{$elseif R > 1}", "{$ELSEIF Defined(Q) or Defined(S)}"]);
+                            self.directive(e);
+                            self.tag("directive-ladder");
+                        }
+                        match self.t.below(4) {
+                            0 => self.tag("empty-branch"),
+                            1 => {
+                                self.tag("empty-branch");
+                                self.compiler_directive();
+                            }
+                            _ => {
+                                let first = self.p.toks.len() as u32;
+                                self.stmt(false);
+                                self.mark(first, opener, 0);
+                                self.op(";");
+                            }
+                        }
                     }
                     self.directive(closer);
                 }
@@ -1038,14 +1052,22 @@ impl<'a, 'b> B<'a, 'b> {
                 self.fresh("V");
             }
             self.op(":");
-            self.type_ref();
-            if kwd == "var" && self.t.chance(1, 6) {
-                self.op("=");
+            let absolute = kwd == "var" && self.t.chance(1, 8);
+            if absolute && self.t.chance(1, 2) {
+                // a subrange type: the word `absolute` then directly follows a number literal
                 self.number();
-            } else if kwd == "var" && self.t.chance(1, 10) {
+                self.op("..");
+                self.number();
+            } else {
+                self.type_ref();
+            }
+            if absolute {
                 self.kw("absolute");
                 self.named("Other");
                 self.tag("absolute");
+            } else if kwd == "var" && self.t.chance(1, 6) {
+                self.op("=");
+                self.number();
             }
             self.op(";");
         }
